@@ -81,7 +81,8 @@ class Scenario:
     def config(self) -> dict[str, Any]:
         return {"mode": self.mode, "reroute": self.reroute_on_cc, "max_retries": self.max_retries,
                 "ckey": {i: self.ckey(i) for i in self.inv_names()}, "family": self.family,
-                "scenario": self.name}
+                "scenario": self.name, "max_pending": int(self.max_pending_seconds),
+                "dead_after": int(self.dead_after_minutes * 60)}
 
 
 class World:
@@ -176,8 +177,22 @@ class World:
                 pass
             except Exception as ex:
                 exc[name] = f"unreadable:{type(ex).__name__}"
+        now = self.clock.peek()
+        age: dict[str, int] = {}
+        for name, real in self.namer.to_real.items():
+            if name.startswith("i") and st.get(name, "none") != "none":
+                try:
+                    age[name] = int(now - o.get_invocation_status_record(real).timestamp.timestamp())
+                except KeyError:
+                    pass
+        hbage: dict[str, int] = {}
+        try:
+            for info in o._get_active_runners(10.0 ** 9, None):
+                hbage[info.runner_id] = int(now - info.last_heartbeat.timestamp())
+        except Exception:
+            pass
         return {"st": st, "owner": owner, "queue": list(self.rec.queue), "retries": retries,
-                "res": res, "exc": exc}
+                "res": res, "exc": exc, "age": age, "hbage": hbage}
 
 
     def history(self) -> dict[str, list[list[str]]]:
@@ -296,6 +311,24 @@ class World:
             self._run_inv(inv, W.ctx(rname))
         return run
 
+    def finisher(self, rname: str, inv_name: str) -> Callable[[], None]:
+        """The owner of a RUNNING invocation completes it (result, then SUCCESS); status errors are swallowed
+        the way DistributedInvocation.run swallows them."""
+        from pynenc.exceptions import InvocationStatusError
+
+        def run() -> None:
+            with quiet():
+                inv = self.app.state_backend.get_invocation(self.namer.real(inv_name))
+            self.execs[inv_name] = self.execs.get(inv_name, 0) + 1
+            val = f"{inv_name}#{self.execs[inv_name]}"
+            self.rec.emit("body_exit", {"inv": inv_name, "runner": rname, "n": self.execs[inv_name],
+                                        "outcome": "ok", "val": vtasks.digest(val)})
+            try:
+                self.app.orchestrator.set_invocation_result(inv, val, W.ctx(rname))
+            except InvocationStatusError:
+                pass
+        return run
+
     def kill_reroute(self, rname: str, inv_name: str) -> Callable[[], None]:
         from pynenc.runner.thread_runner import ThreadRunner
         from pynenc.runner.runner_context import RunnerContext
@@ -321,7 +354,7 @@ class World:
             except sched.ActorKilled:
                 raise
             except Exception as ex:
-                self.rec.ghost("recovery_end", runner=rname, kind=kind, ok=False, err=instrument.err_class(ex))
+                self.rec.emit("recovery_end", {"runner": rname, "kind": kind}, {"err": instrument.err_class(ex)})
         return run
 
     # ---- running ----------------------------------------------------------------------
@@ -330,6 +363,7 @@ class World:
         runner keep running.  Sequential, no scheduler; events are still recorded."""
         scn = self.scn
         self.clock.advance(max(scn.max_pending_seconds, scn.dead_after_minutes * 60) + 1.0)
+        self.rec._last_state = None
         self.rec.ghost("settle_start")
         for _ in range(3):
             self.app.orchestrator.register_runner_heartbeats(["r9"])
@@ -337,6 +371,7 @@ class World:
             self.recovery("r9", "running")()
             self.poller("r9", 2, rounds=4, inline_run=True)()
             self.clock.advance(max(scn.max_pending_seconds, scn.dead_after_minutes * 60) + 1.0)
+            self.rec._last_state = None
         self.app.state_backend.wait_for_all_async_operations()
         self.rec.emit("settled", {})
 
@@ -354,6 +389,8 @@ class World:
             return f"c:{spec[1]}", self.reader(spec[1], spec[2], **kw), "reader"
         if kind == "worker":
             return f"w:{spec[1]}:{spec[2]}", self.worker(spec[1], spec[2]), "worker"
+        if kind == "finisher":
+            return f"w:{spec[1]}:{spec[2]}", self.finisher(spec[1], spec[2]), "worker"
         if kind == "kill_reroute":
             return f"s:{spec[1]}", self.kill_reroute(spec[1], spec[2]), "stopper"
         raise ValueError(spec)
@@ -371,6 +408,7 @@ class World:
                 self.poller(step[1], step[2], inline_run=True)()
             elif k == "advance":
                 self.clock.advance(step[1])
+                self.rec._last_state = None      # ages changed: the next event projects afresh
             elif k == "heartbeat":
                 self.app.orchestrator.register_runner_heartbeats([step[1]])
             elif k == "status":
@@ -516,7 +554,8 @@ def normalize(events: list[dict[str, Any]]) -> list[dict[str, Any]]:
             r["val"] = str(ret)
         st = e.get("state") or {}
         s = {"st": st.get("st", {}), "owner": st.get("owner", {}), "queue": st.get("queue", []),
-             "res": st.get("res", {}), "exc": st.get("exc", {}), "retries": st.get("retries", {})}
+             "res": st.get("res", {}), "exc": st.get("exc", {}), "retries": st.get("retries", {}),
+             "age": st.get("age", {}), "hbage": st.get("hbage", {})}
         n = {"actor": e["actor"], "role": e.get("role", ""), "op": e["op"], "a": a, "r": r, "s": s}
         for extra in ("cfg", "hist", "real_queue"):
             if extra in e:
